@@ -132,13 +132,13 @@ def run(tier, seed, opens):
                 return p_acc, p_change, p_idx
 
             # scripted histories first (the same for every wallet), then random ones
-            script = [('key_for_path', 0, 0, 2), ('key_for_path', 0, 0, 1), ('new_key', 0), ('new_key', 0), ('get_keys', 0), ('new_account',),
+            script = [('key_for_path', 0, 0, 2), ('key_for_path', 0, 0, 1), ('new_key', 0), ('new_key', 0), ('new_keys3', 0), ('new_key', 0), ('get_keys', 0), ('new_account',),
                       ('new_key', 0), ('set_default_account', 1), ('new_key', 0), ('new_key_change', 0), ('get_key', 0), ('key_for_path', 0, 1, 3),
                       ('key_for_path', 0, 1, 1), ('reopen',), ('new_key_change', 0), ('new_key', 1), ('set_default_account', 0),
                       ('get_keys', 0, 'other'), ('new_key', 0, 'other'), ('new_key', 0, 'other'), ('new_key_change', 0, 'other'), ('reopen',), ('new_key', 0, 'other')]
             for step in range(len(script) + n_steps):
                 forced = script[step] if step < len(script) else None
-                op = forced[0] if forced else rng.choice(['new_key', 'new_key', 'new_key_change', 'get_key', 'get_keys', 'key_for_path', 'key_for_path', 'new_account', 'reopen'])
+                op = forced[0] if forced else rng.choice(['new_key', 'new_key', 'new_key_change', 'get_key', 'get_keys', 'key_for_path', 'key_for_path', 'new_account', 'reopen', 'new_keys3'])
                 acc = forced[1] if forced and len(forced) > 1 else rng.choice(sorted(accounts))
                 others = [t for t in ('legacy', 'p2sh-segwit', 'segwit') if t != wt]
                 if forced:
@@ -163,6 +163,23 @@ def run(tier, seed, opens):
                             ok += 1
                         if r:
                             have.add(r[2])
+                    elif op == 'new_keys3':
+                        # bulk creation: three new consecutive indices in one call
+                        before = {x.address for x in w.keys(depth=5)}
+                        ks = w.new_keys(account_id=acc, number_of_keys=3, witness_type=rw)
+                        history.append('new_keys(account=%d, number_of_keys=3%s)' % (acc, tag))
+                        have = issued.setdefault((acc, 0, rw), set())
+                        for k in ks:
+                            expect = (max(have) + 1) if have else 0
+                            r = check_key(k, op, acc, 0, expect, rw)
+                            cases += 1
+                            if k.address in before:
+                                fail(op, {'wallet': {'witness_type': wt, 'network': net, 'seed': sd.hex()}, 'history': list(history)},
+                                     'returned the existing key %s' % k.path, 'new keys')
+                            else:
+                                ok += 1
+                            if r:
+                                have.add(r[2])
                     elif op in ('get_key', 'get_keys'):
                         ks = [w.get_key(account_id=acc, witness_type=rw)] if op == 'get_key' else w.get_keys(account_id=acc, number_of_keys=3, witness_type=rw)
                         history.append('%s(account=%d%s)' % (op, acc, tag))
